@@ -462,6 +462,29 @@ def rule_r11_notnone(ctx, prog, rule="R11"):
                             if some_t and branch_dominates(b, sb, some_t[0], bb):
                                 good = True
             if not good:
+                # `value.as_ref()?; Some(NotNone(value))`: the Continue side of `?` on a view of the payload (as_ref / as_mut / a clone keeps
+                # Some-ness) dominates the construction
+                for sb in b.live_blocks():
+                    st = b.term(sb)
+                    if st["k"] != "switch":
+                        continue
+                    de = strip(b.switch_discr_expr(sb))
+                    if not (isinstance(de, tuple) and de[0] == "discr"):
+                        continue
+                    br = strip(de[1])
+                    if not (isinstance(br, tuple) and br[0] == "call" and br[1] == "branch" and br[3]):
+                        continue
+                    v_ = strip(br[3][0])
+                    for _ in range(3):
+                        if isinstance(v_, tuple) and v_[0] == "call" and v_[1] in ("as_ref", "as_mut", "as_deref", "clone", "cloned", "copied") and len(v_[3]) == 1:
+                            v_ = strip(v_[3][0])
+                        elif isinstance(v_, tuple) and v_[0] in ("ref", "deref"):
+                            v_ = strip(v_[1])
+                    if v_ == payload:
+                        cont = [tgt for v2, tgt in st["arms"] if v2 == 0]
+                        if cont and branch_dominates(b, sb, cont[0], bb):
+                            good = True
+            if not good:
                 # `value.is_some().then(|| NotNone(value))`: the constructing closure runs only when the captured value is Some
                 tg = then_guard(prog, b)
                 if tg is not None:
